@@ -193,6 +193,12 @@ class Reader(object):
     def loop(self, callback, *args):
         self.dispatch(0, callback, *args)
 
+    def _timestamp(self, ticks):
+        # whole seconds and the fraction are converted separately: a 64-bit tick count does not fit a float, and
+        # dividing the rounded count moved nanosecond-resolution timestamps by up to a microsecond
+        seconds, fraction = divmod(ticks, int(self._divisor))
+        return self._tsoffset + seconds + fraction / self._divisor
+
     def __iter__(self):
         self.__f.seek(0)
         while 1:
@@ -205,11 +211,11 @@ class Reader(object):
 
             if blk_type == dpng.PCAPNG_BT_EPB:
                 epb = dpng.EnhancedPacketBlockLE(buf) if self.__le else dpng.EnhancedPacketBlock(buf)
-                ts = self._tsoffset + (((epb.ts_high << 32) | epb.ts_low) / self._divisor)
+                ts = self._timestamp((epb.ts_high << 32) | epb.ts_low)
                 yield ts, epb.pkt_data
             elif blk_type == dpng.PCAPNG_BT_PB:
                 pb = dpng.PacketBlockLE(buf) if self.__le else dpng.PacketBlock(buf)
-                ts = self._tsoffset + (((pb.ts_high << 32) | pb.ts_low) / self._divisor)
+                ts = self._timestamp((pb.ts_high << 32) | pb.ts_low)
                 yield ts, pb.pkt_data
             elif blk_type == PCAPNG_BT_DSB:
                 dsb = DecryptionSecretBlockLE(buf) if self.__le else DecryptionSecretBlock(buf)
